@@ -558,6 +558,33 @@ pub fn extra_pairs() -> Vec<MCase> {
     for (mtag, body) in meets {
         push(&format!("rename-parameter-of-function-value-meeting-another/{mtag}"), body.replace('Q', "p"), body.replace('Q', "q"));
     }
+    // ---- (E) a user variable that has the name of something the compiler generates (feed binders of
+    // `self`, desugaring temporaries, record-update temporaries, lifted lambdas, the global initialiser)
+    let gen_names = ["feed_id0", "feed_id1", "feed_global", "__dt0", "__dt1", "record_update_temp", "lambda_0", "lambda_1", "_mimium_global", "__default_1_x", "closure_0"];
+    let uses: [(&str, &str); 6] = [
+        ("local-next-to-self", "fn acc(x){\n  let N = 100.0\n  self + x + N\n}\nfn dsp(){\n  acc(1.0)\n}\n"),
+        ("local-in-nested-stateful-calls", "fn inner(x){\n  self + x\n}\nfn outer(x){\n  let N = 7.0\n  inner(x) + self * 0.5 + N\n}\nfn dsp(){\n  outer(1.0)\n}\n"),
+        ("parameter-next-to-self", "fn acc(N){\n  self + N\n}\nfn dsp(){\n  acc(1.0) + acc(10.0)\n}\n"),
+        ("local-next-to-record-update", "fn dsp(){\n  let r = {a = 1.0, b = 2.0}\n  let N = 5.0\n  let s = {r <- a = N}\n  s.a + s.b * 10.0 + N * 100.0\n}\n"),
+        ("local-next-to-nested-pattern", "fn dsp(){\n  let N = 3.0\n  let (a, (b, c)) = (1.0, (2.0, N))\n  a + b * 10.0 + c * 100.0 + N * 1000.0\n}\n"),
+        ("local-next-to-lambdas", "fn dsp(){\n  let N = 4.0\n  let f = |x| x + N\n  let g = |y| f(y) * 2.0\n  g(now) + N\n}\n"),
+    ];
+    for (utag, body) in uses {
+        for n in gen_names {
+            push(&format!("rename-to-compiler-generated-name/{utag}/{n}"), body.replace('N', "zz_q"), body.replace('N', n));
+        }
+    }
+    // ---- (F) redundant parentheses around a lambda body and around a lambda that is an argument
+    let parens: [(&str, &str, &str); 5] = [
+        ("lambda-body-typed-parameter", "fn dsp(){\n  let f = |x: float| x + 1.0\n  f(now)\n}\n", "fn dsp(){\n  let f = |x: float| (x + 1.0)\n  f(now)\n}\n"),
+        ("lambda-body-untyped-parameter", "fn dsp(){\n  let f = |x| x + 1.0\n  f(now)\n}\n", "fn dsp(){\n  let f = |x| (x + 1.0)\n  f(now)\n}\n"),
+        ("lambda-as-argument-typed", "fn app(v, f){ f(v) }\nfn dsp(){\n  app(now, |x: float| x * 2.0)\n}\n", "fn app(v, f){ f(v) }\nfn dsp(){\n  app(now, (|x: float| x * 2.0))\n}\n"),
+        ("lambda-value-typed", "fn dsp(){\n  let f = |x: float| x\n  f(now)\n}\n", "fn dsp(){\n  let f = (|x: float| x)\n  f(now)\n}\n"),
+        ("lambda-body-typed-return", "fn dsp(){\n  let f = |x: float| -> float x + 1.0\n  f(now)\n}\n", "fn dsp(){\n  let f = |x: float| -> float (x + 1.0)\n  f(now)\n}\n"),
+    ];
+    for (ptag, a, b) in parens {
+        push(&format!("redundant-parentheses/{ptag}"), a.to_string(), b.to_string());
+    }
     // ---- (B)
     let ops: [(&str, &str); 6] = [
         ("field-read", "  r.F1 + r.F2 * 10.0 + r.F3 * 100.0\n"),
